@@ -304,6 +304,42 @@ theorem tokenSpec_stale (i : Item) (m : Mut) (h : pairSound i m = false) :
 @[simp] theorem act_cycleInit_cycSetOffset : act .cycleInit .cycSetOffset = .drop := rfl
 @[simp] theorem act_cycleInit_cycSetActive : act .cycleInit .cycSetActive = .keep := rfl
 
+@[simp] theorem act_occupancySet_netCreateFrom : act .occupancySet .netCreateFrom = .keep := rfl
+@[simp] theorem act_occupancySet_netReplace : act .occupancySet .netReplace = .keep := rfl
+@[simp] theorem act_occupancySet_elemSetDuration : act .occupancySet .elemSetDuration = .keep := rfl
+@[simp] theorem act_occupancySet_elemSetState : act .occupancySet .elemSetState = .keep := rfl
+@[simp] theorem act_occupancySet_elemsListEdit : act .occupancySet .elemsListEdit = .keep := rfl
+@[simp] theorem act_initialOccupancy_netCreateFrom : act .initialOccupancy .netCreateFrom = .keep := rfl
+@[simp] theorem act_initialOccupancy_netReplace : act .initialOccupancy .netReplace = .keep := rfl
+@[simp] theorem act_initialOccupancy_elemSetDuration : act .initialOccupancy .elemSetDuration = .keep := rfl
+@[simp] theorem act_initialOccupancy_elemSetState : act .initialOccupancy .elemSetState = .keep := rfl
+@[simp] theorem act_initialOccupancy_elemsListEdit : act .initialOccupancy .elemsListEdit = .keep := rfl
+@[simp] theorem act_laneletPolygon_netCreateFrom : act .laneletPolygon .netCreateFrom = .keep := rfl
+@[simp] theorem act_laneletPolygon_netReplace : act .laneletPolygon .netReplace = .recompute := rfl
+@[simp] theorem act_laneletPolygon_elemSetDuration : act .laneletPolygon .elemSetDuration = .keep := rfl
+@[simp] theorem act_laneletPolygon_elemSetState : act .laneletPolygon .elemSetState = .keep := rfl
+@[simp] theorem act_laneletPolygon_elemsListEdit : act .laneletPolygon .elemsListEdit = .keep := rfl
+@[simp] theorem act_laneletDistance_netCreateFrom : act .laneletDistance .netCreateFrom = .keep := rfl
+@[simp] theorem act_laneletDistance_netReplace : act .laneletDistance .netReplace = .drop := rfl
+@[simp] theorem act_laneletDistance_elemSetDuration : act .laneletDistance .elemSetDuration = .keep := rfl
+@[simp] theorem act_laneletDistance_elemSetState : act .laneletDistance .elemSetState = .keep := rfl
+@[simp] theorem act_laneletDistance_elemsListEdit : act .laneletDistance .elemsListEdit = .keep := rfl
+@[simp] theorem act_laneletInnerDistance_netCreateFrom : act .laneletInnerDistance .netCreateFrom = .keep := rfl
+@[simp] theorem act_laneletInnerDistance_netReplace : act .laneletInnerDistance .netReplace = .drop := rfl
+@[simp] theorem act_laneletInnerDistance_elemSetDuration : act .laneletInnerDistance .elemSetDuration = .keep := rfl
+@[simp] theorem act_laneletInnerDistance_elemSetState : act .laneletInnerDistance .elemSetState = .keep := rfl
+@[simp] theorem act_laneletInnerDistance_elemsListEdit : act .laneletInnerDistance .elemsListEdit = .keep := rfl
+@[simp] theorem act_networkIndex_netCreateFrom : act .networkIndex .netCreateFrom = .recompute := rfl
+@[simp] theorem act_networkIndex_netReplace : act .networkIndex .netReplace = .recompute := rfl
+@[simp] theorem act_networkIndex_elemSetDuration : act .networkIndex .elemSetDuration = .keep := rfl
+@[simp] theorem act_networkIndex_elemSetState : act .networkIndex .elemSetState = .keep := rfl
+@[simp] theorem act_networkIndex_elemsListEdit : act .networkIndex .elemsListEdit = .keep := rfl
+@[simp] theorem act_cycleInit_netCreateFrom : act .cycleInit .netCreateFrom = .keep := rfl
+@[simp] theorem act_cycleInit_netReplace : act .cycleInit .netReplace = .keep := rfl
+@[simp] theorem act_cycleInit_elemSetDuration : act .cycleInit .elemSetDuration = .drop := rfl
+@[simp] theorem act_cycleInit_elemSetState : act .cycleInit .elemSetState = .keep := rfl
+@[simp] theorem act_cycleInit_elemsListEdit : act .cycleInit .elemsListEdit = .drop := rfl
+
 /-! ## List facts for the history clause -/
 
 theorem lastN_length {α : Type} (m : Nat) (l : List α) : (lastN m l).length = min m l.length := by
